@@ -65,6 +65,12 @@ def run(ctx: Ctx, tier: str) -> Result:
                         if f.cls in t.resolve_call(cc, cf).ctor:
                             a = t.bind_args(init, cc).get(msg_param)
                             txt = ctx.expand.expand(a, cf) if a is not None else []
+                            # the name is bound once, to the first result of process_log (read from the binding, whatever process_log looks like inside)
+                            bnd = t.local_bindings(cf, a.id) if isinstance(a, ast.Name) else []
+                            plf = p.func(LOGM + ".LogActionContext.process_log")
+                            if len(bnd) == 1 and bnd[0][0] == "assign" and bnd[0][1][2] == 0 and isinstance(bnd[0][1][1], ast.Call) \
+                                    and t.resolve_call(bnd[0][1][1], cf).repo == [plf]:
+                                txt = ["process_log(...)[0]"]
                             if txt and all("process_log(" in x and x.endswith("[0]") or x.startswith("'[deep] %s' %") for x in txt):
                                 res.ok("C16.ROLE", {"constructed with rendered message": cf.qname})
                             else:
@@ -184,6 +190,8 @@ def run(ctx: Ctx, tier: str) -> Result:
         if isinstance(rhs, ast.Call) and isinstance(rhs.func, ast.Attribute) and rhs.func.attr in ("vformat", "format") \
                 and isinstance(rhs.func.value, ast.Call):
             cname = norm(rhs.func.value.func)
+            if cname.endswith(".__init__"):
+                cname = cname[:-len(".__init__")]
             fmt_cls = p.classes.get(cname)
             tmpl = norm(rhs.args[0]) if rhs.args else ""
             okp = fmt_cls is not None and any("Formatter" in b for b in fmt_cls.ext_base_names()) and tmpl in (P(pl, 1), "<loop:%s>" % pl.params[1])
@@ -216,6 +224,23 @@ def run(ctx: Ctx, tier: str) -> Result:
                 # the lists written are the ones process_log returns
                 ret_w, ret_v = norm(rets[0].value.elts[1]), norm(rets[0].value.elts[2])
                 same = apps and upds and norm(apps[0].func.value) == ret_w and norm(upds[0].func.value) == ret_v
+                if apps and upds and not same:
+                    # the formatter object made for this message carries the two collections: process_log returns `<formatter>.F`,
+                    # get_field fills `self.F`, and the constructor starts each message with empty ones
+                    def _own(e_, want_):
+                        if not (isinstance(e_, ast.Attribute) and isinstance(e_.value, ast.Name)):
+                            return None
+                        bs_ = t.local_bindings(pl, e_.value.id)
+                        if len(bs_) != 1 or bs_[0][0] != "assign" or bs_[0][1][2] is not None or not isinstance(bs_[0][1][1], ast.Call) \
+                                or fmt_cls not in t.resolve_call(bs_[0][1][1], pl).ctor or paths.enclosing_loops(p, bs_[0][1][1], pl):
+                            return None
+                        ini_ = fmt_cls.own_method("__init__")
+                        st_ = t.field_stores(fmt_cls, e_.attr)
+                        if ini_ is None or len(st_) != 1 or st_[0][0] is not ini_ or norm(st_[0][1]) not in want_:
+                            return None
+                        return "self." + e_.attr
+                    same = norm(apps[0].func.value) == _own(rets[0].value.elts[1], ("[]", "list()")) \
+                        and norm(upds[0].func.value) == _own(rets[0].value.elts[2], ("{}", "dict()"))
                 if len(apps) == 1 and len(upds) == 1 and ret_ok and uncond and same:
                     res.ok("C16.PIPE", {"per field": "one watch result appended, variables merged, evaluation text returned"})
                 else:
